@@ -100,12 +100,16 @@ class PersistentMixin(Module):
                 self.persistentData = json.load(f)
         except (FileNotFoundError, ValueError):
             self.persistentData = {}
+        if not isinstance(self.persistentData, dict):
+            self.log.warning('persistent data in %s is not a JSON object', self.persistentFile)
+            self.persistentData = {}
         result = {}
         for pname, value in self.persistentData.items():
             try:
                 pobj = self.parameters[pname]
                 if getattr(pobj, 'persistent', False):
-                    result[pname] = self.parameters[pname].datatype.import_value(value)
+                    value = pobj.datatype.validate(pobj.datatype.import_value(value))
+                    result[pname] = pobj.datatype(value)  # refuses incomplete structs
             except Exception as e:
                 # ignore invalid persistent data (in case parameters have changed)
                 self.log.warning('can not restore %r to %r (%r)', pname, value, e)
